@@ -49,14 +49,16 @@ func (i *documentIndex) Get(key string) interface{} {
 }
 
 func (i *documentIndex) UpdateIndex(oplog ipfslog.Log, _ []ipfslog.Entry) error {
+	// the log is read under the lock: an update that read an older log must
+	// not be applied after one that read a newer log
+	i.muIndex.Lock()
+	defer i.muIndex.Unlock()
+
 	entries := oplog.Values().Slice()
 	size := len(entries)
 	verifhook.At("index.read", i, oplog, size)
 
 	handled := map[string]struct{}{}
-
-	i.muIndex.Lock()
-	defer i.muIndex.Unlock()
 
 	for idx := range entries {
 		item, err := operation.ParseOperation(entries[size-idx-1])
